@@ -346,6 +346,26 @@ def r3_mapping(rep, src):
             rep.ok('C13.R3', fp.site, what, 'as specified')
         else:
             rep.fail('C13.R3', fp.site, what, 'parse_relations("D1, D2 | D3") builds %s; specified: %s' % (str(got)[:300], str(want)[:300]), where=fp.where)
+    # the empty conjunction (what `relations` gives for an absent field): str([]) and parse_relations of that text, both interpreted
+    fs = src.func(SITE + '.str')
+    warned2 = []
+    heap2 = H.Heap(mod, hooks={'regex:__dep_RE.match': lambda it_, a, k: None, 'warnings.warn': lambda it_, a, k: warned2.append(a[0])})
+    heap2.symbolic_strings = True
+    heap2.native_regex = True
+    it2 = H.Interp(heap2)
+    what = 'the empty relationship list round-trips'
+    try:
+        text = it2.call(H.Closure(fs.node, {}, None, fs.cls), [heap2.new_list([])])
+        text = text.concrete() if isinstance(text, SStr) else text
+        back = it2.call(H.Closure(fp.node, {}, None, fp.cls), [('class', 'PkgRelation'), text])
+        items = it2.seq(back)
+        if text == '' and not items and not warned2:
+            rep.ok('C13.R3', fp.site, what, "str([]) = '' and parse_relations('') = [] without a warning")
+        else:
+            rep.fail('C13.R3', fp.site, what, 'str([]) gives %r, which parse_relations reads as %d group(s)%s instead of the empty list: the relations of an absent field do not '
+                     'survive format → parse' % (text, len(items), ' with the warning %r' % (str(warned2[0])[:60],) if warned2 else ''), where=fp.where)
+    except H.Raised as x:
+        rep.fail('C13.R3', fp.site, what, 'raises %s (line %d)' % (x.exc, x.lineno), where=fp.where)
     # the writer side of the polarity: decided by the template rules R1/R2 (the "!" literal is part of the extracted template)
 
 
